@@ -225,3 +225,25 @@ def random_walks(graph, rng, n, max_len=200, cover_edges=True, init_filter=None)
         yield walk
         if produced >= n and not uncovered:
             break
+
+
+def walks_matching(graph, names, init_filter=None, limit=8):
+    """Walks through a TLC state graph whose action names are exactly `names` (any arguments), from initial states
+    accepted by init_filter. Used to make sure specific histories are always replayed, also in the quick tier."""
+    out = []
+    inits = sorted(s for s in graph.init if init_filter is None or init_filter(graph.states[s]))
+
+    def rec(s, i, acc):
+        if len(out) >= limit:
+            return
+        if i == len(names):
+            out.append(list(acc))
+            return
+        for (a, args, d) in graph.succ(s):
+            if a == names[i]:
+                acc.append((a, args, graph.states[d]))
+                rec(d, i + 1, acc)
+                acc.pop()
+    for s in inits:
+        rec(s, 0, [('Init', (), graph.states[s])])
+    return out
